@@ -404,6 +404,10 @@ def gen_hbuild(g, k):
     for _ in range(100 * k):                              # repeats: a later call replaces the earlier one
         ids = [r.randint(1, 10) for _ in range(r.randint(1, 14))]
         c.append("hbuild %d %s" % (r.choice([0, 4]), lst(g.hcall(i) for i in ids)))
+    # long headers: request lists that make the header longer than the 8192-byte search window, 32 KiB, 64 KiB
+    for n in (2030, 2040, 2050, 8190, 16400):
+        req = lst([r.randint(0, 1), lst(r.randint(0, 22) for _ in range(n))])
+        c.append("hbuild 0 %s" % lst(["[ 1 %s ]" % req[2:-2], g.hcall(6)]))
     return c
 
 
